@@ -2,6 +2,7 @@ import PpciVerif.Model.WasmBin
 import PpciVerif.Gen.WasmOpcodes
 import PpciVerif.Spec.Leb
 import PpciVerif.Proofs.WasmBinModule
+import PpciVerif.Proofs.WasmBinCanon3
 /-!
 # C21 — WebAssembly modules round-trip through the binary form
 
@@ -12,7 +13,11 @@ objects on every run).  Every theorem about the model is stated for an
 arbitrary table record `T` with `T.Sane`; `tables_sane` discharges that
 hypothesis for the regenerated tables by kernel evaluation.
 
-Not covered here: the text format, acceptance by a reference engine.
+The property is claimed at level P: the clauses about the text format and about acceptance by a
+reference engine are not formalised here at all (no text-layer model; no reference engine in the
+sandbox), so no `_full` statement for them exists in this file.  The binary clause is proved in
+both directions (`read_write`, `canonical_input_reproduced`), except for what `Valid` / `Canon`
+exclude because of the open finding on f32 signalling-NaN constants (negation witness below).
 -/
 namespace Props.C21
 open Model.WasmBin Proofs.WasmBin
@@ -149,19 +154,49 @@ theorem read_write_stable (m : List Def) (h : Valid G m = true) :
     Valid G (normalize m) = true ∧ normalize (normalize m) = normalize m :=
   ⟨valid_normalize G m h, normalize_idem m⟩
 
-/-- FULL statement of the first clause of C21 on the model: *every* canonically encoded binary is
-    reproduced by read → write.  NOT proved in this generality: -/
-def canonical_reread_full : Prop :=
-  ∀ bs m, readModule G true bs = .ok m → encModule G m = bs
+/-- **write ∘ read = id on canonical input** (the first clause of C21, on the model): if the strict
+    reader accepts `bs` (i.e. `bs` is canonically encoded) then the module `m` it returns is in the
+    feature set, is already in section order, and the writer's bytes for `m` are exactly `bs`. -/
+theorem canonical_reread (bs : Bytes) (m : List Def) (h : readModule G true bs = .ok m) :
+    encModule G m = bs ∧ Valid G m = true ∧ normalize m = m :=
+  readModule_ok tables_sane h
 
-/-- … what is proved: it holds for every canonically encoded binary *that the writer can produce*
-    (the image of `encModule` on valid modules, all of which are canonical by `write_is_canonical`).
-    Missing for the full statement: that `Canon` accepts nothing outside that image (the converse
-    direction of each parsing lemma). -/
-theorem canonical_reread_partial (bs : Bytes) (m : List Def) (h : Valid G m = true) (hbs : bs = encModule G m) :
-    Canon G bs = true ∧ ∃ m', readModule G true bs = .ok m' ∧ encModule G m' = bs := by
-  subst hbs
-  exact ⟨write_is_canonical m h, normalize m, readModule_enc tables_sane true m h, encModule_normalize G m⟩
+/-- the strict reader only adds checks: on canonical input the Python-mirroring reader returns the
+    same module -/
+theorem strict_reader_agrees (bs : Bytes) (m : List Def) (h : readModule G true bs = .ok m) :
+    readModule G false bs = .ok m := by
+  obtain ⟨he, hv, hn⟩ := canonical_reread bs m h
+  have := read_write m hv
+  rw [he, hn] at this
+  exact this
+
+/-- **bytes → read → write reproduces the bytes for every canonically encoded input**, stated with
+    the Python-mirroring reader and the writer-with-exceptions: the reader succeeds, and if the
+    writer does not raise (it raises e.g. for an `i32.const` immediate of more than 5 LEB bytes,
+    which no valid module contains) it returns exactly the input. -/
+theorem canonical_input_reproduced (bs : Bytes) (hc : Canon G bs = true) :
+    ∃ m, readModule G false bs = .ok m ∧ Valid G m = true ∧ encModule G m = bs ∧
+      ∀ bs', writeModule G m = .ok bs' → bs' = bs := by
+  simp only [Canon] at hc
+  split at hc
+  · rename_i m hm
+    obtain ⟨he, hv, _⟩ := canonical_reread bs m hm
+    refine ⟨m, strict_reader_agrees bs m hm, hv, he, ?_⟩
+    intro bs' hw
+    simp only [writeModule] at hw
+    split at hw
+    · simp at hw
+    · simp only [Except.ok.injEq] at hw; rw [← hw, he]
+  · simp at hc
+
+/-- `Canon` is exactly the image of the writer on the feature set -/
+theorem canon_iff_written (bs : Bytes) : Canon G bs = true ↔ ∃ m, Valid G m = true ∧ encModule G m = bs := by
+  constructor
+  · intro hc
+    obtain ⟨m, _, hv, he, _⟩ := canonical_input_reproduced bs hc
+    exact ⟨m, hv, he⟩
+  · rintro ⟨m, hv, rfl⟩
+    exact write_is_canonical m hv
 
 /-! ### non-vacuity and negation witnesses -/
 
